@@ -82,6 +82,16 @@ func VerifC05ClientDial() {
 	cfg.Transport.TLS.DisableCustomTLSFirstByte = &noFirstByte
 	mux := false
 	cfg.Transport.TCPMux = &mux
+	// what the operator wrote, before defaults are filled in the way the loader does
+	wantCert, wantKey, wantCA := cfg.Transport.TLS.CertFile, cfg.Transport.TLS.KeyFile, cfg.Transport.TLS.TrustedCaFile
+	wantSN := "frps.example"
+	if cfg.Transport.TLS.ServerName != "" {
+		wantSN = "name.example"
+	}
+	if zzverif.Bool("completedAsLoaded") {
+		cfg.Complete()
+		zzverif.Reach("C05.client.completed")
+	}
 	c05c.tlsCalls, c05c.made, c05c.dialTLS, c05c.dialTLSSet, c05c.headByteCalls, c05c.dials = 0, nil, nil, false, 0, 0
 	c := NewConnector(context.Background(), cfg).(*defaultConnectorImpl)
 	isQuic := proto == "quic" || proto == "QUIC"
@@ -91,16 +101,12 @@ func VerifC05ClientDial() {
 		_, _ = c.realConnect()
 	}
 	zzverif.Assert(c05c.dials == 1 && c05c.dialTLSSet, "C05.client.dialled-once")
-	wantSN := "frps.example"
-	if cfg.Transport.TLS.ServerName != "" {
-		wantSN = "name.example"
-	}
 	tlsApplies := enable || proto == "wss"
 	switch {
 	case tlsApplies:
 		zzverif.Assert(c05c.tlsCalls == 1, "C05.client.tls-configuration-built-once")
-		zzverif.Assert(c05c.cert == cfg.Transport.TLS.CertFile && c05c.key == cfg.Transport.TLS.KeyFile, "C05.client.configured-client-certificate-used")
-		zzverif.Assert(c05c.ca == cfg.Transport.TLS.TrustedCaFile, "C05.client.configured-trusted-ca-used")
+		zzverif.Assert(c05c.cert == wantCert && c05c.key == wantKey, "C05.client.configured-client-certificate-used")
+		zzverif.Assert(c05c.ca == wantCA, "C05.client.configured-trusted-ca-used")
 		zzverif.Assert(c05c.sn == wantSN, "C05.client.expected-server-name")
 		zzverif.Assert(c05c.dialTLS == c05c.made && c05c.made != nil, "C05.client.dialer-gets-the-configuration-that-was-built")
 		if cfg.Transport.TLS.TrustedCaFile != "" && cfg.Transport.TLS.CertFile == "" {
